@@ -103,6 +103,23 @@ func VerifSnapshot(b policyapi.Backend) []string {
 		rl = strings.Join(reqs, ",")
 	}
 	out = append(out, "BM "+rl)
+	{
+		seen := map[libmem.NodeMask]bool{}
+		zs := []string{}
+		p.memAllocator.ForeachRequest(nil, func(r *libmem.Request) bool {
+			z := r.Zone()
+			if !seen[z] {
+				seen[z] = true
+				zs = append(zs, fmt.Sprintf("%d:%d", uint64(z), p.memAllocator.ZoneFree(z)))
+			}
+			return true
+		})
+		sort.Strings(zs)
+		if len(zs) == 0 {
+			zs = []string{"-"}
+		}
+		out = append(out, "BZ "+strings.Join(zs, ","))
+	}
 	as := cpucontrol.VerifAssignments(p.cch)
 	classes := []string{}
 	for k := range as {
